@@ -406,8 +406,35 @@ pub fn near_miss_override(rng: &mut Rng, p: &mut Project) -> bool {
     let types: Vec<usize> = (0..p.items.len())
         .filter(|i| matches!(p.items[*i].kind, ItemKind::Type { .. }))
         .collect();
-    let mode = rng.below(6);
+    let mode = rng.below(7);
     let mutable = rng.chance(1, 2);
+    if mode == 6 {
+        // The derived block skips the slot altogether: the function is not re-declared, the
+        // next one (or the block's size) says where things go on.
+        let pos = p.items[y].vslots.as_ref().and_then(|vs| vs.iter().position(|f| f.name == name));
+        let total = p.items[y].vslots.as_ref().map(|vs| vs.len()).unwrap_or(0);
+        let next: Option<(String, usize)> = pos.and_then(|pos| {
+            p.items[y].vslots.as_ref().and_then(|vs| {
+                vs.iter()
+                    .enumerate()
+                    .skip(pos + 1)
+                    .find(|(_, f)| !f.name.starts_with("_vfunc_"))
+                    .map(|(k, f)| (f.name.clone(), k))
+            })
+        });
+        if let ItemKind::Type { vftable: Some(v), .. } = &mut p.items[y].kind {
+            v.funcs.retain(|f| f.name != name);
+            match next {
+                Some((n, k)) => {
+                    if let Some(f) = v.funcs.iter_mut().find(|f| f.name == n) {
+                        f.index = Some(k);
+                    }
+                }
+                None => v.size = Some(total),
+            }
+        }
+        return true;
+    }
     let ptr_to = |i: usize| if mutable { Ty::Item(i).mptr() } else { Ty::Item(i).cptr() };
     // Every copy of the slot (the base's declaration and whatever re-declares it).
     let for_each_copy = |p: &mut Project, f: &mut dyn FnMut(usize, &mut Func)| {
